@@ -109,6 +109,9 @@ def received_cfg(v, gv):
 
 class Ref:
     def __init__(self, spec, root, parameter_mode=True):
+        if root.get('file_state'):
+            # config files rewritten in place before this chain is built: what counts is the content at that moment
+            spec = dict(spec, files={**spec['files'], **root['file_state']})
         self.spec = spec
         self.root = root
         self.parameter_mode = parameter_mode
